@@ -50,7 +50,7 @@ ASSUMPTIONS = ['real arithmetic (rounding/overflow outside the claim)', 'scalar 
 RULE = ('program = expression tree over catalogue leaves; non-trivial = reduce() changed the operator tree '
         '(class-name tree differs) and the program has >= 1 symbolic atom; distinct = distinct expression key')
 BUDGET = {'quick': 420, 'thorough': 2400}
-CASE_TIMEOUT = {'quick': 120, 'thorough': 300}
+CASE_TIMEOUT = {'quick': 60, 'thorough': 300}
 
 INV_OK = {
     'vec': ['I3', 'k', 'D', 'Spd', 'Spd2'],
